@@ -183,6 +183,7 @@ def run(ctx):
     latticegen.regenerate(ctx, "C08")
     primitives(ctx, ctx.budget(400, 4000))
     lattice.stream(ctx, ctx.budget(600, 6000), "sparse")
+    lattice.angular_stream(ctx, ctx.budget(500, 5000), "sparse")
     metric_pairs(ctx, 6, ctx.budget(7, 1))
     if not changed and unknown:
         common.update_sentinels(cur)
